@@ -87,6 +87,36 @@ Fixpoint cmcf_loop (U : universe) (cs : list ty) (i todo : nat) : res bool :=
 Definition can_make_combining_frame (U : universe) (s : stype) : res bool :=
   cmcf_loop U (cols s) 0 (prefix s).
 
+(* ================================================================ repairs
+   Three defects of the type checks were found by this property and repaired in
+   /repo by `fix:` commits.  Each checker below is parameterised by which repairs
+   are in; the former behaviour stays expressible so that the refutations of the
+   unrepaired code (Refuted.v) remain checked witnesses.
+     rep_numout          ReaderFunc checks fn.Out.NumOut() == 2 before Out(0)/Out(1)
+     rep_shard_exact     ReaderFunc/WriterFunc: fn.In.Out(0) != typeOfInt instead of
+                         .Kind() != reflect.Int                          (b77039e)
+     rep_reject_variadic ReaderFunc/WriterFunc/Fold/Reduce/Repartition test
+                         fn.IsVariadic in their first validity test      (74b12a5) *)
+Record repairs := mkRep {
+  rep_numout : bool;
+  rep_shard_exact : bool;
+  rep_reject_variadic : bool
+}.
+Definition as_found : repairs := mkRep false false false.
+
+(* THE SWITCHES: what the code in /repo is now (true = the repair is in). *)
+Definition readerfunc_numout_checked : bool := true.
+Definition shard_param_exact : bool := true.
+Definition exact_form_rejects_variadic : bool := true.
+Definition current_code : repairs :=
+  mkRep readerfunc_numout_checked shard_param_exact exact_form_rejects_variadic.
+
+Definition is_variadic (fn : sfunc) : bool :=
+  match sf_var fn with Some _ => true | None => false end.
+(* the test on the shard parameter *)
+Definition shard_is_int (R : repairs) (t : ty) : bool :=
+  if rep_shard_exact R then ty_eqb t tint else kind_is_int t.
+
 (* ================================================================ constructors *)
 
 (* slice.go:212 Const(nshard, columns...): [columns] are the dynamic types of the
@@ -99,18 +129,18 @@ Definition const_check (n : Z) (columns : list ty) : outcome :=
   | Some elems => Accept (mkS elems 1 n)
   end.
 
-(* slice.go:321 ReaderFunc(nshard, read).  [fixed] = the proposed repair (check
-   fn.Out.NumOut() == 2 before indexing the results). *)
-Definition readerfunc_check_gen (fixed : bool) (n : Z) (read : ty) : outcome :=
+(* slice.go:321 ReaderFunc(nshard, read) *)
+Definition readerfunc_check_gen (R : repairs) (n : Z) (read : ty) : outcome :=
   match slicefunc_of read with
   | None => Reject
   | Some fn =>
+      if rep_reject_variadic R && is_variadic fn then Reject else
       if (length (sf_in fn) <? 3)%nat then Reject else
       match out_at (sf_in fn) 0 with
       | Pan => GoPanic
       | Val a0 =>
-          if negb (kind_is_int a0) then Reject else
-          if fixed && negb (length (sf_out fn) =? 2)%nat then Reject else
+          if negb (shard_is_int R a0) then Reject else
+          if rep_numout R && negb (length (sf_out fn) =? 2)%nat then Reject else
           match out_at (sf_out fn) 0 with
           | Pan => GoPanic
           | Val o0 =>
@@ -128,22 +158,19 @@ Definition readerfunc_check_gen (fixed : bool) (n : Z) (read : ty) : outcome :=
       end
   end.
 
-(* THE SWITCH for the confirmed defect (DESIGN.md section 8 row 11): false = the
-   code as it is in /repo (slice.go:329 indexes Out(0), Out(1) unguarded);
-   true = with the proposed one-line fix. *)
-Definition readerfunc_numout_checked : bool := true.
-Definition readerfunc_check := readerfunc_check_gen readerfunc_numout_checked.
+Definition readerfunc_check := readerfunc_check_gen current_code.
 
 (* slice.go:443 WriterFunc(slice, write) *)
-Definition writerfunc_check (s : stype) (write : ty) : outcome :=
+Definition writerfunc_check_gen (R : repairs) (s : stype) (write : ty) : outcome :=
   match slicefunc_of write with
   | None => Reject
   | Some fn =>
+      if rep_reject_variadic R && is_variadic fn then Reject else
       if negb (length (sf_in fn) =? 3 + length (cols s))%nat then Reject else
       match out_at (sf_in fn) 0 with
       | Pan => GoPanic
       | Val a0 =>
-          if negb (kind_is_int a0) then Reject else
+          if negb (shard_is_int R a0) then Reject else
           match out_at (sf_in fn) 2 with
           | Pan => GoPanic
           | Val a2 =>
@@ -158,6 +185,7 @@ Definition writerfunc_check (s : stype) (write : ty) : outcome :=
           end
       end
   end.
+Definition writerfunc_check := writerfunc_check_gen current_code.
 
 (* slice.go:566 Map: mapSlice embeds the input Slice and overrides NumOut/Out only,
    so Prefix() and NumShard() are the input's. *)
@@ -196,7 +224,7 @@ Definition flatmap_check (U : universe) (s : stype) (f : ty) : outcome :=
   end.
 
 (* slice.go:870 Fold *)
-Definition fold_check (U : universe) (s : stype) (fold : ty) : outcome :=
+Definition fold_check_gen (R : repairs) (U : universe) (s : stype) (fold : ty) : outcome :=
   if (length (cols s) <? 2)%nat then Reject else
   match out_at (cols s) 0 with
   | Pan => GoPanic
@@ -206,6 +234,7 @@ Definition fold_check (U : universe) (s : stype) (fold : ty) : outcome :=
       match slicefunc_of fold with
       | None => Reject
       | Some fn =>
+          if rep_reject_variadic R && is_variadic fn then Reject else
           if negb (length (sf_out fn) =? 1)%nat then Reject else
           (* got = fn.In, want = Append(fn.Out, Slice(slice, 1, NumOut)) *)
           if negb (type_equal (sf_out fn ++ skipn 1 (cols s)) (sf_in fn)) then Reject else
@@ -215,6 +244,7 @@ Definition fold_check (U : universe) (s : stype) (fold : ty) : outcome :=
           end
       end
   end.
+Definition fold_check := fold_check_gen current_code.
 
 (* slice.go:966 Head, slice.go:1005 Scan: no dynamic check *)
 Definition head_check (s : stype) (n : Z) : outcome := Accept s.
@@ -229,7 +259,7 @@ Definition prefixed_check (s : stype) (p : Z) : outcome :=
 (* reduce.go:42 Reduce.  The last condition is Go's
      In.NumOut() != 2 || In.Out(0) != T || In.Out(1) != T || Out.NumOut() != 1 || Out.Out(0) != T
    whose short-circuit evaluation never indexes out of range. *)
-Definition reduce_check (U : universe) (s : stype) (reduce : ty) : outcome :=
+Definition reduce_check_gen (R : repairs) (U : universe) (s : stype) (reduce : ty) : outcome :=
   if negb (Z.of_nat (length (cols s)) - Z.of_nat (prefix s) =? 1)%Z then Reject else
   match can_make_combining_frame U s with
   | Pan => GoPanic
@@ -238,6 +268,7 @@ Definition reduce_check (U : universe) (s : stype) (reduce : ty) : outcome :=
       match slicefunc_of reduce with
       | None => Reject
       | Some fn =>
+          if rep_reject_variadic R && is_variadic fn then Reject else
           match out_at (cols s) (length (cols s) - 1) with
           | Pan => GoPanic
           | Val outputType =>
@@ -247,6 +278,7 @@ Definition reduce_check (U : universe) (s : stype) (reduce : ty) : outcome :=
           end
       end
   end.
+Definition reduce_check := reduce_check_gen current_code.
 
 (* reshuffle.go:35 Reshuffle *)
 Definition reshuffle_check (U : universe) (s : stype) : outcome :=
@@ -257,13 +289,15 @@ Definition reshuffle_check (U : universe) (s : stype) : outcome :=
   end.
 
 (* reshuffle.go:53 Repartition *)
-Definition repartition_check (s : stype) (partition : ty) : outcome :=
+Definition repartition_check_gen (R : repairs) (s : stype) (partition : ty) : outcome :=
   match slicefunc_of partition with
   | None => Reject
   | Some fn =>
-      if negb (type_equal (sf_in fn) (tint :: cols s)) || negb (type_equal (sf_out fn) [tint])
+      if (rep_reject_variadic R && is_variadic fn)
+         || negb (type_equal (sf_in fn) (tint :: cols s)) || negb (type_equal (sf_out fn) [tint])
       then Reject else Accept s
   end.
+Definition repartition_check := repartition_check_gen current_code.
 
 (* reshard.go:23 Reshard: returns the input itself when the shard count is
    already n, a reshardSlice with NumShard() = n otherwise. *)
